@@ -110,6 +110,42 @@ def run(tier):
             return 3
         return int(c.args[0][2:]) + 3          # main, reader, writer, W workers
     ex.run_priorities(nthreads, cells=[c for c in ex.cells if nthreads(c) <= (5 if quick else 6)])
+    # priority-change points (PCT-style): strict-priority schedulers in which, at up to k points of the run, the
+    # thread that would run next drops to the lowest priority -- a thread is starved from an arbitrary moment on.
+    # Shapes: blocks with planted spurious candidates followed by blocks whose output takes most output slots.
+    from lib import bzgen
+    from lib.bzgen import Block
+    fake300 = bzgen.block_bitstring(Block(bytes(((i * 5) % 23) * 3 + 40 for i in range(300))))
+    fake = bzgen.block_bitstring(Block(b'fake block contents'))
+    junk = format(bzgen.BLOCK_MAGIC, '048b') + '0' * 32 + '0' * 48       # magic, "CRC", then an empty symbol map: fails at once
+    carrier3 = bzgen.carrier([fake, fake300, fake], 3, 1)
+    smallb = Block(bytes((i * 7) % 11 + 65 for i in range(60)))
+    multib = Block(bytes((i * 13) % 29 + 48 for i in range(2400)))      # 60 output buffers of 40 bytes: more than the 16W-2 free slots
+    s_stale = bzgen.build([([carrier3, smallb, multib, Block(b'tail')], 9)])[0]
+    s_junk = bzgen.build([([bzgen.carrier([junk] * 20, 2, 1, salt=1), bzgen.carrier([junk] * 60, 2, 2, salt=2), Block(b'tail')], 9)])[0]
+    from lib import bzref
+    dm2 = sched.Explorer(chk, scratch=ex.dir)
+    dm1 = sched.Explorer(chk, scratch=ex.dir)
+    orders = sched.priority_orders(6, (4, 5))            # W=3: threads main, worker 1, sink, source, workers 4 and 5 (interchangeable)
+    if quick:
+        orders = orders[::10]
+    plain_stale = bzref.decode(s_stale)['out']
+    plain_junk = bzref.decode(s_junk)['out']
+    dm2.add('decompress+2-priority-changes', 'fast', ['-n3', '-d'], s_stale, sched.expect_exact(0, plain_stale),
+            'carrier(3 complete planted blocks)+small+60-buffer block+tail W=3 in64/out40',
+            {'setenv': {'LBZIP2_VERIF_IN_GRANUL': '64', 'LBZIP2_VERIF_OUT_GRANUL': '40'}, 'nprio': 6, 'demote': 2}, policies=','.join(orders))
+    dm1.add('decompress+1-priority-change', 'fast', ['-n3', '-d'], s_junk, sched.expect_exact(0, plain_junk),
+            'carrier(20 spurious headers)+carrier(60 spurious headers)+tail W=3 in64',
+            {'setenv': {'LBZIP2_VERIF_IN_GRANUL': '64'}, 'nprio': 6, 'demote': 1}, policies='prio:6')
+    if not quick:
+      dm1.add('decompress+1-priority-change', 'fast', ['-n3', '-d'], s_stale, sched.expect_exact(0, plain_stale),
+            'carrier(3 complete planted blocks)+small+60-buffer block+tail W=3 in64/out40',
+            {'setenv': {'LBZIP2_VERIF_IN_GRANUL': '64', 'LBZIP2_VERIF_OUT_GRANUL': '40'}, 'nprio': 6, 'demote': 1}, policies='prio:6')
+    dm1.run_pass(1)
+    dm2.run_pass(2, time_limit=(100 if quick else 900))
+    dm1.finish_cov('')
+    dm2.finish_cov('priority-change legs: strict-priority schedulers with 1 (all 720 orders of 6 threads) / 2 (orders up to worker symmetry) '
+                   'priority-change points at any scheduling point.')
     # passes of increasing bound: every cell completes d before any starts d+1
     done = 0
     for d in range(1, maxd + 1):
